@@ -163,7 +163,7 @@ def classify(kind, canonical, exp, ok, out, base):
         return "ok", ""
     if canonical:
         return "failing", "canonical encoding of an in-type value was rejected"
-    if kind in ("call", "mem", "ret", "memnt", "retd", "kw0", "kw1", "kw2"):
+    if kind in ("call", "mem", "ret", "memnt", "retd", "kw0", "kw1", "kw2", "ctorx"):
         return "corr", "model accepts this non-canonical input but the contract reverts"
     return "ok", ""   # constructor arguments: one-directional check only
 
@@ -355,8 +355,10 @@ def run(ctx):
         cfgs = C.quick_configs() + ctx.rng("cfgs").sample(cfgs, 20)
     per = 3 if quick else 5
     jobs, jm = [], []
+    ctorx_terms = {}
     k = 0
     for ti, (t, vals) in enumerate(pairs):
+        k0 = k
         src, nbytes = H.build_source(t)
         inputs, metas, bl = [], [], []
         for v in vals:
@@ -397,6 +399,17 @@ def run(ctx):
                 if used("ctor", j) and not any(data[i] >= 0x80 for i in range(0, len(data), 32)):
                     ins.append(("ctor", data))
                     ms.append(("ctor", cterm, lenient, data))
+            # constructor arguments, EXACT (expectation computed afterwards from the real init code of each build)
+            nwb = len(base) // 32
+            cx = [c for c in cs if c[0].startswith(("CT", "CX"))][:14]
+            for wi in sorted(set([0, nwb - 1, nwb // 2])):
+                w0 = int.from_bytes(base[32 * wi:32 * wi + 32], "big")
+                for x in (2 ** 256 - 32, 2 ** 256 - 1, 2 ** 256 - 64, len(base), (w0 + 1) % 2 ** 256, w0 | (0xFF << 248)):
+                    cx.append((f"CW {wi} {hex(x)}", lambda b, wi=wi, x=x: b[:32 * wi] + x.to_bytes(32, "big") + b[32 * wi + 32:]))
+            for (cterm, fn) in cx:
+                ins.append(("ctorx", fn(base)))
+                ms.append(("ctorx", cterm, None, fn(base)))
+            ctorx_terms.setdefault(k, [c for c, _ in cx])
             # keyword-argument entry points
             for kk, (tpl, vals_k) in enumerate([(("tuple", (t,)), [v]), (("tuple", (t, ("uint", 8))), [v, 200]),
                                                 (("tuple", (t, ("uint", 8), ("bytes", 4))), [v, 200, bytes([170, 187, 204])])]):
@@ -418,7 +431,7 @@ def run(ctx):
         kwsel = [selector(sig("kw", [t])), selector(sig("kw", [t, ("uint", 8)])), selector(sig("kw", [t, ("uint", 8), ("bytes", 4)]))]
         for cfg in chosen:
             jobs.append((src, cfg, bl, inputs, kwsel))
-            jm.append((t, vals, src, cfg, metas, bl, kwsel))
+            jm.append((t, vals, src, cfg, metas, bl, kwsel, k0))
     t0 = time.time()
     with ProcessPoolExecutor(max_workers=4) as ex:
         results = list(ex.map(H.run_job, jobs, chunksize=2))
@@ -427,7 +440,8 @@ def run(ctx):
     stats = {"call": 0, "len": 0, "mem": 0, "memnt": 0, "ret": 0, "ctor": 0, "accepted": 0, "rejected": 0, "accepted_noncanonical": 0,
              "model_accepts_contract_rejects_payload": 0}
     nfail = 0
-    for (t, vals, src, cfg, metas, bl, kwsel), res in zip(jm, results):
+    ctorx_pending = []
+    for ji, ((t, vals, src, cfg, metas, bl, kwsel, k0), res) in enumerate(zip(jm, results)):
         if res.get("skipped"):
             ctx.corr["skipped_too_large"] = ctx.corr.get("skipped_too_large", 0) + 1
             continue
@@ -438,6 +452,11 @@ def run(ctx):
         for vi, (ms, obs) in enumerate(zip(metas, res["obs"])):
             for mrec, (ok, out) in zip(ms, obs):
                 kind, cterm, exp, data = mrec[:4]
+                if kind == "ctorx":
+                    # exact constructor check: first config of every type (all configs in thorough)
+                    if ctx.tier != "quick" or ji % per == 0:
+                        ctorx_pending.append((ji, vi, k0 + vi, cterm, data, ok, out))
+                    continue
                 base_for = mrec[4] if len(mrec) > 4 else bl[vi]
                 n += 1
                 stats[kind] = stats.get(kind, 0) + 1
@@ -469,6 +488,40 @@ def run(ctx):
                           "model": exp[:300], "observed_ok": ok, "observed_out": out.hex() if isinstance(out, bytes) else out,
                           "canonical_base": base_for.hex(), "ctor_base": bl[vi].hex(), "kwsel": [x.hex() for x in kwsel]}
                 ctx.violation("failing-input" if verdict == "failing" else "correspondence-broken", f"{kind}: {text}", detail)
+    # ---- constructor arguments, exact: expectation from the REAL init code of each build
+    groups = {}
+    for rec in ctorx_pending:
+        groups.setdefault((rec[0], rec[1]), []).append(rec)
+    cexprs, ckeys = [], []
+    for (ji, vi), recs in groups.items():
+        t, vals = jm[ji][0], jm[ji][1]
+        code = results[ji].get("initcode")
+        if code is None:
+            continue
+        cl = "[" + "; ".join(r_[3] for r_ in recs) + "]"
+        cexprs.append(f"let t := (TTuple [{A.coq_ty(t)}]) in let base := enc t (VList [{A.coq_val(t, vals[vi])}]) in "
+                      f"join (expect_ctor t {A.coq_bytes(code)} base {cl})")
+        ckeys.append((ji, vi))
+    if cexprs:
+        couts = A.coq_strings(cexprs, "c05ctor", imports=IMPORTS, shard=4, timeout=400)
+        for (ji, vi), o in zip(ckeys, couts):
+            t, vals, src, cfg, metas, bl, kwsel, k0 = jm[ji]
+            for rec, exp in zip(groups[(ji, vi)], o.split(",")):
+                _, _, _, cterm, data, ok, out = rec
+                n += 1
+                stats["ctorx"] = stats.get("ctorx", 0) + 1
+                verdict, text = classify("ctorx", cterm == "CX []", exp, ok, out, bl[vi])
+                if verdict == "ok":
+                    continue
+                nfail += 1
+                if nfail > 6:
+                    continue
+                detail = {"source": src, "config": cfg.name, "entry": "ctorx",
+                          "how": "deploy initcode ++ input, then call get(); model: accept_ctor on the real init code",
+                          "type": A.eth_ty(t), "value": repr(vals[vi]), "corruption": cterm, "input_hex": data.hex(),
+                          "model": exp[:300], "observed_ok": ok, "observed_out": out.hex() if isinstance(out, bytes) else out,
+                          "canonical_base": bl[vi].hex(), "ctor_base": bl[vi].hex(), "kwsel": []}
+                ctx.violation("failing-input" if verdict == "failing" else "correspondence-broken", f"ctorx: {text}", detail)
     found = any(v["kind"] == "failing-input" for v in ctx.violations)
     if b["ok"] and tpl_err is None:
         total += part_templates(ctx)
